@@ -53,6 +53,9 @@ def make_samples(vseed: int, nsamps: int, nchans: int, nbits: int, mode: str = "
     if mode == "small":
         top = min(15, (1 << nbits) - 1) if nbits < 32 else 15
         return (h % np.uint64(top + 1)).astype(dt)
+    if mode == "flat":
+        # every sample equals one small constant: block means are exact integers
+        return np.full((nsamps, nchans), 1 + (vseed % 15)).astype(dt) if nbits > 2 else np.full((nsamps, nchans), 1).astype(dt)
     if mode.startswith("pulse"):
         # strictly periodic train: value 1 in every channel at samples t % k == 0 (k = vseed), else 0
         k = max(1, int(vseed))
